@@ -542,7 +542,7 @@ func c05DeleteRange(c *vlib.Ctx, sh c05Shape, r *kvRepo, in *kvInst, db storage.
 		}
 		return out
 	}
-	before := snapshot(r.uuids[parent])
+	parentSnap := snapshot(r.uuids[parent])
 	anc := sh.spec.ancMasks()
 	conflicted := make([]bool, len(in.keys))
 	for k := range in.keys {
@@ -579,13 +579,26 @@ func c05DeleteRange(c *vlib.Ctx, sh c05Shape, r *kvRepo, in *kvInst, db storage.
 		vid, _ := datastore.VersionFromUUID(dvid.UUID(child))
 		tlo, _ := keyvalue.NewTKey(lo)
 		thi, _ := keyvalue.NewTKey(hi)
+		// every third interval: the child first writes entries of its own over what it inherits (overwrite of key 0,
+		// delete of key 1, a first write of key 2 if absent), so the range holds same-version entries and tombstones
+		before := parentSnap
+		own := pi%3 == 1
+		if own {
+			vsrv.PostS("node/"+child+"/"+in.name+"/key/"+kvURLKey(in.keys[0]), "own0")
+			vsrv.Delete("node/" + child + "/" + in.name + "/key/" + kvURLKey(in.keys[1]))
+			vsrv.PostS("node/"+child+"/"+in.name+"/key/"+kvURLKey(in.keys[2]), "own2")
+			before = snapshot(child)
+		}
 		c.Eval(1)
 		derr := db.DeleteRange(datastore.NewVersionedCtx(data, vid), tlo, thi)
-		rep := map[string]interface{}{"shape": sh.name, "keys": in.keys, "per_key_ops_per_node": in.patterns, "lo": lo, "hi": hi}
+		rep := map[string]interface{}{"shape": sh.name, "keys": in.keys, "per_key_ops_per_node": in.patterns, "lo": lo, "hi": hi, "child_wrote_own_entries_first": own}
 		key := fmt.Sprintf("deleterange:lo%s-hi%s", c05Pos(lo, in.keys), c05Pos(hi, in.keys))
+		if own {
+			key = "deleterange-after-own-writes:" + strings.TrimPrefix(key, "deleterange:")
+		}
 		confl := false
 		for k, kk := range in.keys {
-			if kk >= lo && kk <= hi && conflicted[k] {
+			if kk >= lo && kk <= hi && conflicted[k] && !own { // own entries at the child supersede every inherited conflict
 				confl = true
 			}
 		}
@@ -623,8 +636,8 @@ func c05DeleteRange(c *vlib.Ctx, sh c05Shape, r *kvRepo, in *kvInst, db storage.
 			}
 		}
 		// ancestors and sibling untouched
-		if s := snapshot(sib); fmt.Sprint(s) != fmt.Sprint(before) {
-			c.Violate(key+":sibling", fmt.Sprintf("DeleteRange[%q,%q] in one child changed its sibling: %v -> %v", lo, hi, before, s), rep)
+		if s := snapshot(sib); fmt.Sprint(s) != fmt.Sprint(parentSnap) {
+			c.Violate(key+":sibling", fmt.Sprintf("DeleteRange[%q,%q] in one child changed its sibling: %v -> %v", lo, hi, parentSnap, s), rep)
 		}
 		for v := range r.uuids {
 			if s := snapshot(r.uuids[v]); fmt.Sprint(s) != fmt.Sprint(beforeAnc[v]) {
